@@ -116,7 +116,7 @@ class CtxWorld(World):
             "time (virtual clock)", "uuid4 (seeded)"]
     PROBES = ["raise_after_set", "oneway_mutate", "worker_reuse", "handshake_after_raise", "batch", "ping", "prop",
               "assign_idiom", "mutate_idiom", "multiplex", "thread", "preempted", "pool_full_retry", "oneway_delayed", "reply_reset_then_reconnect", "bad_handshake", "peer_address_unavailable", "reset_after_oneway_request",
-              "daemon_annotations_hook", "stream_item_context", "request_annotations_written_in_place", "request_without_annotations"]
+              "daemon_annotations_hook", "stream_item_context", "request_annotations_written_in_place", "request_without_annotations", "serving_thread_was_a_client"]
     RULE = ("plan = (server type, pool size 1-2, serializer, 2-3 clients x 1-2 sessions x 1-5 calls of kinds "
             "ret/boom/ow/plain/batch/prop/ping/stream (an item stream whose generator body records the context during every fetch), each with a unique annotation key set by assignment or mutation, "
             "pre-emption probabilities); distinct = distinct interleaving digest; non-trivial = at least two clients' "
@@ -158,6 +158,8 @@ class CtxWorld(World):
         plan = {"servertype": servertype, "pool": [1, rng.randint(1, 2)], "serializer": rng.choice(SERIALIZERS),
                 "clients": clients, "p_line": rng.choice([0.0, 0.01, 0.03]) if servertype == "thread" else 0.0,
                 "p_block": rng.choice([0.0, 0.3, 0.7, 1.0]), "net": {"shuffle_select": rng.random() < 0.5}}
+        if rng.random() < 0.3:
+            plan["loop_leftover"] = True
         if rng.random() < 0.25:
             plan["taint"] = True        # methods write into the request annotations dict they are handed
         if rng.random() < 0.3:
@@ -225,7 +227,16 @@ class CtxWorld(World):
         if plan.get("taint"):
             ctx.probe("request_annotations_written_in_place")
         uri = daemon.register(obj, "o")
-        loop = threading.Thread(target=daemon.requestLoop, name="daemon-loop")
+        def serve():
+            if plan.get("loop_leftover"):
+                # the thread that runs the request loop was a client itself before ("register with the name server, then serve"):
+                # its call context still holds the annotations of the last reply it received
+                cctx.response_annotations = {"TOKN": b"session-token-of-the-serving-thread"}
+                cctx.annotations = {"MYRQ": b"request-annotation-of-the-serving-thread"}
+                ctx.probe("serving_thread_was_a_client")
+            daemon.requestLoop()
+
+        loop = threading.Thread(target=serve, name="daemon-loop")
         loop.start()
         ops = {}        # tok -> dict(kind, key, mutate, conn, seq, corr, seen)
         handshakes = [] # (conn, seen annotations after bind)
